@@ -93,6 +93,20 @@ def scenario(sid, seed=0):
         )
         kinds = {"ts": "QNT", "fl": "QNT", "q": "QNT", "c": "CAT"}
         ranks = {}
+    elif sid == 8:
+        # the object is built with the values_orders of an earlier fit on other data: stale cut points for two of the
+        # quantitative features (a fit recomputes every quantitative feature's quantiles, whatever the code path)
+        n = 24
+        X = pd.DataFrame(
+            {
+                "q1": pd.Series([float(i // 6) for i in range(n)], dtype=float),
+                "q2": pd.Series([float((i * 5) % 4) for i in range(n)], dtype=float),
+                "q3": pd.Series([float(i % 3) + 0.5 for i in range(n)], dtype=float),
+                "c": pd.Series([names[i % 3] for i in range(n)], dtype=object),
+            }
+        )
+        kinds = {"q1": "QNT", "q2": "QNT", "q3": "QNT", "c": "CAT"}
+        ranks = {"q1": [0.25, math.inf], "q3": [100.0, 200.0, math.inf]}
     elif sid == 6:
         # feature names that look like the per-class copies MulticlassCarver creates (lag -> lag_1, lag_2)
         n = 24
@@ -166,6 +180,7 @@ def build(cls, feats, kinds, ranks, n_jobs):
     quali = [f for f in feats if kinds[f] == "CAT"]
     ordi = [f for f in feats if kinds[f] == "ORD"]
     vo = {f: list(ranks[f]) for f in ordi}
+    vo.update({f: list(ranks[f]) for f in quanti if f in ranks})  # scenario 8: orders of an earlier fit handed over
     if cls == "Discretizer":
         return Discretizer(quanti, quali, 0.1, ordinal_features=ordi, values_orders=vo, copy=True, n_jobs=n_jobs)
     kw = dict(min_freq=0.1, quantitative_features=quanti, qualitative_features=quali, ordinal_features=ordi, values_orders=vo, max_n_mod=3, copy=True, n_jobs=n_jobs)
@@ -307,7 +322,7 @@ def real_run(args):
 
 
 def run(tier, seed, rep):
-    sids = [0, 1, 3, 4, 5, 7] if tier == "quick" else [0, 1, 2, 3, 4, 5, 7]
+    sids = [0, 1, 3, 4, 5, 7, 8] if tier == "quick" else [0, 1, 2, 3, 4, 5, 7, 8]
     cases = []
     # (a) subsets, orderings of the feature list, column orders -- sequential, no seams
     pairs = [(cls, sid) for cls in CLASSES for sid in sids] + [("MulticlassCarver", sid) for sid in MULTI_SIDS]
